@@ -39,6 +39,9 @@ class Harness:
         self.m = None       # its model: dict key -> value
         self.t2 = None      # secondary table derived by zeros_like / ones_like (same key layout)
         self.m2 = None
+        self.t3 = None      # a sum t + t2 / t2 + t that stays live: later writes to its operands must not reach it
+        self.m3 = None
+        self.vfloat3 = False
         self.trace = []
         self.assigned = False
         self.nontrivial_shape = False
@@ -82,7 +85,7 @@ class Harness:
 
     def check_all(self, salt):
         """invariant: every key maps to the model value (query order rotates with the step); key set unchanged"""
-        for tab, model, name in ((self.t, self.m, "t"), (self.t2, self.m2, "t2")):
+        for tab, model, name in ((self.t, self.m, "t"), (self.t2, self.m2, "t2"), (self.t3, self.m3, "t3")):
             if tab is None:
                 continue
             ks = list(model)
@@ -130,10 +133,12 @@ class Harness:
     def tab(self, which):
         if which == "t2" and self.t2 is not None:
             return self.t2, self.m2
+        if which == "t3" and self.t3 is not None:
+            return self.t3, self.m3
         return self.t, self.m
 
     def value(self, v, which="t"):
-        isfloat = self.vfloat2 if (which == "t2" and self.t2 is not None) else self.vfloat
+        isfloat = self.vfloat2 if (which == "t2" and self.t2 is not None) else self.vfloat3 if (which == "t3" and self.t3 is not None) else self.vfloat
         return v / 2 if isfloat else v
 
     def op_get1(self, which, i, as_np):
@@ -262,18 +267,23 @@ class Harness:
     def has_t2(self):
         return self.t2 is not None
 
-    def op_add(self):
+    def op_add(self, order="t+t2"):
         from npstructures import HashTable
         if self.t2 is None:
             return
-        got = lib(lambda: self.t + self.t2)
+        got = lib(lambda: self.t + self.t2 if order == "t+t2" else self.t2 + self.t)
         if not got.ok or not isinstance(got.value, HashTable):
-            raise Violation("add:result", got=got.brief())
+            raise Violation("add:result", got=got.brief(), order=order)
         ks = list(self.m)
         r = lib(lambda: got.value[np.array(ks, dtype=self.dt)])
         exp = [self.m[k] + self.m2[k] for k in ks]
         if not r.ok or not all(same_scalar(x.item(), e) for x, e in zip(np.asarray(r.value), exp)):
-            raise Violation("add:values", expected=exp, got=r.brief())
+            raise Violation("add:values", expected=exp, got=r.brief(), order=order)
+        # the sum stays live as t3 (checked by the invariant after every later step, writable like the others)
+        self.t3 = got.value
+        self.m3 = dict(zip(ks, exp))
+        self.vfloat3 = np.asarray(r.value).dtype.kind == "f"   # a still-constant operand contributes a Python number
+        self.labels.append("t3-created:" + order)
 
     def op_eq(self):
         if self.t2 is None:
@@ -328,7 +338,7 @@ def key_setup(draw):
 
 IDX = st.integers(0, 11)
 VAL = st.integers(0, 30)
-WHICH = st.sampled_from(["t", "t", "t2"])
+WHICH = st.sampled_from(["t", "t", "t2", "t3"])
 
 
 def machine(tier, sink):
@@ -392,9 +402,9 @@ def machine(tier, sink):
             self.do(["like", f, dtype])
 
         @precondition(lambda self: self.h.has_t2)
-        @rule()
-        def add(self):
-            self.do(["add"])
+        @rule(order=st.sampled_from(["t+t2", "t2+t"]))
+        def add(self, order):
+            self.do(["add", order])
 
         @precondition(lambda self: self.h.has_t2)
         @rule()
